@@ -126,7 +126,8 @@ def r11_2(run):
     run.ob('R11.2', fr, fr.node, '_find_real_name compares lower-cased names on both sides', ok, slot='lower-both',
            message='_find_real_name compares %s' % [src(c) for c in cmps])
     its = [n for n in walk_unit(fr) if isinstance(n, (ast.For,))]
-    keys_src = ' '.join(src(v) for st in walk_unit(fr) if isinstance(st, ast.Assign) for v in [st.value])
+    # (wherever the candidate tables are named: a list built first, an itertools.chain, a generator expression)
+    keys_src = ' '.join(sorted(set(src(x) for x in walk_unit(fr) if isinstance(x, (ast.Subscript, ast.Attribute)) and (src(x).endswith("['parsers']") or src(x).endswith("['config']") or src(x) in ('self.parsers', 'self.config')))))
     run.ob('R11.2', fr, fr.node, 'candidates are the parser and config keys', 'parsers' in keys_src and 'config' in keys_src, slot='candidates', message='_find_real_name searches %s' % keys_src[:80])
     # entry points use the resolved name for every table subscript
     for name, param_idx in (('__getattr__', 1), ('__setattr__', 1), ('mark_unsaved', 1), ('_conf_changed', None)):
